@@ -11,6 +11,7 @@ import (
 	"fmt"
 	"io"
 	"os"
+	"strings"
 	"path/filepath"
 	"testing"
 	"time"
@@ -82,6 +83,40 @@ func TestVerifGrpcProxyRoundTrip(t *testing.T) {
 		_ = rc.Close()
 		if rerr != nil || !bytes.Equal(got, data) || (sz >= 0 && sz != int64(n)) {
 			rec.Violation("C12", "grpcproxy.get-differs", fmt.Sprintf("Get of a %d-byte blob returned %d bytes (size %d, err %v)", n, len(got), sz, rerr), map[string]int{"size": n})
+		}
+	}
+	// existence checks and reads of action-cache / raw entries the back end does not hold (HTTP HEAD and
+	// GET of /ac/ with a gRPC back end): a miss, never a panic
+	for _, kind := range []cache.EntryKind{cache.AC, cache.RAW, cache.CAS} {
+		for _, op := range []string{"contains", "get"} {
+			rec.Case()
+			sum := sha256.Sum256([]byte("absent-" + kind.String() + op))
+			hash := hex.EncodeToString(sum[:])
+			res := ""
+			func() {
+				defer func() {
+					if r := recover(); r != nil {
+						res = fmt.Sprintf("panic: %v", r)
+					}
+				}()
+				if op == "contains" {
+					ok, _ := p.proxy.Contains(ctx, kind, hash, -1)
+					res = fmt.Sprintf("contains=%v", ok)
+				} else {
+					rc, _, err := p.proxy.Get(ctx, kind, hash, 100)
+					res = fmt.Sprintf("reader=%v err=%v", rc != nil, err != nil)
+					if rc != nil {
+						_ = rc.Close()
+					}
+				}
+			}()
+			rec.Note(fmt.Sprintf("absent %s %s -> %s", kind.String(), op, res))
+			rec.Distinct("absent:" + kind.String() + ":" + op)
+			if strings.HasPrefix(res, "panic") {
+				rec.Violation("C12,C14", "grpcproxy.absent-panic."+op, fmt.Sprintf("%s of an absent %s entry through the gRPC back-end client: %s", op, kind.String(), res), map[string]string{"kind": kind.String(), "op": op})
+			} else if res == "contains=true" || strings.HasPrefix(res, "reader=true") {
+				rec.Violation("C12", "grpcproxy.absent-hit", fmt.Sprintf("%s of an absent %s entry: %s", op, kind.String(), res), nil)
+			}
 		}
 	}
 	// a caller that does not know the size (HTTP GET): the client asks the back end for the size first
